@@ -572,9 +572,9 @@ void run_case_t(uint64_t idx, Rng& r) {
   const uint32_t k_common = F::pick_k(r, TH);
   const bool arith = std::is_arithmetic<T>::value;
   // size budget of an estimating leaf
-  const bool huge = TH && arith && r.chance(0.01);
-  const bool big = !huge && r.chance(TH ? 0.15 : 0.05);
-  const uint64_t est_max = huge ? 1000000 : (big ? (TH ? 100000 : 6000) : (TH ? 4000 : 800));
+  const bool huge = TH && arith && r.chance(0.0007);
+  const bool big = !huge && r.chance(TH ? 0.02 : 0.05);
+  const uint64_t est_max = huge ? 1000000 : (big ? (TH ? 50000 : 6000) : (TH ? 3000 : 800));
   const double p_special = r.chance(0.35) ? (r.chance(0.2) ? 0.5 : 0.03) : 0.0;
   const bool overlap = r.coin();
   const unsigned dense = TH ? 48 : 32;
